@@ -1906,7 +1906,21 @@ def plan_c10(run_seed):
         if O2 == O:
             O2 = {}
         seq_ov = [1 if t.chance(0.4) else 0 for _ in seqs]
-    return {"engine": "E1", "prop": "C10", "run_seed": run_seed, "texts": [e], "ops": [], "override": O, "override2": O2, "seq_override": seq_ov, "sequences": seqs, "tapes": None}
+    # the values of a dictionary as a caller computes them: numpy scalars (numpy.float64 is a
+    # float), now and then a bool (which is an int) - "any override dictionary"
+    ov_types = [{}, {}]
+    for di, D_ in enumerate((O, O2)):
+        if D_ and t.chance(0.25):
+            for name in sorted(D_):
+                if t.chance(0.6):
+                    v_ = D_[name]
+                    if isinstance(v_, float):
+                        ov_types[di][name] = t.choice(["np.float64", "np.float64", "np.float32"])
+                    elif v_ in (0, 1) and t.chance(0.2):
+                        ov_types[di][name] = "bool"
+                    else:
+                        ov_types[di][name] = t.choice(["np.int64", "np.int64", "np.int32"])
+    return {"engine": "E1", "prop": "C10", "run_seed": run_seed, "texts": [e], "ops": [], "override": O, "override2": O2, "seq_override": seq_ov, "sequences": seqs, "override_types": ov_types, "tapes": None}
 
 
 def token_kind(tok):
@@ -1923,7 +1937,18 @@ def exec_c10(plan):
     hist = []
     try:
         O = dict(plan["override"] or {})
-        OVS = [O, dict(plan["override2"]) if plan.get("override2") is not None else O]
+        def typed(D_, tags):
+            if not tags:
+                return D_
+            import numpy
+
+            conv = {"np.float64": numpy.float64, "np.float32": numpy.float32, "np.int64": numpy.int64, "np.int32": numpy.int32, "bool": bool}
+            S.probe("dictionary_with_numpy_or_bool_values")
+            return {k: (conv[tags[k]](v) if k in tags else v) for k, v in D_.items()}
+
+        tags_ = plan.get("override_types") or [{}, {}]
+        O = typed(O, tags_[0])
+        OVS = [O, typed(dict(plan["override2"]), tags_[1]) if plan.get("override2") is not None else O]
         S.share_override_objects = True
         ovs_before = [dict(x) for x in OVS]
         seq_ov = plan.get("seq_override") or [0] * len(plan["sequences"])
@@ -2072,7 +2097,7 @@ def exec_c10(plan):
                 elif m != ref[1]:
                     S.viol.add("C10", "passes_commute", "mismatch", "", "orders %s and %s give different meanings" % ("".join(ref[0]), "".join(seq)), op=None)
                     S.viol[-1]["orders"] = ["".join(ref[0]), "".join(seq)]
-                    S.viol[-1]["override_used"] = OVS[ovi]
+                    S.viol[-1]["override_used"] = {k_: (v_ if type(v_) in (int, float) else (int(v_) if isinstance(v_, (bool, int)) or getattr(getattr(v_, "dtype", None), "kind", "") in "iu" else float(v_))) for k_, v_ in OVS[ovi].items()}
                     break
                 else:
                     S.probe("commute_compared")
